@@ -163,7 +163,7 @@ func (k *knownFile) match(prop, sig string) (string, bool) {
 }
 
 func tierDeadline(tier string) time.Time {
-	d := 100 * time.Second
+	d := 150 * time.Second
 	if tier == "thorough" {
 		d = 14 * time.Minute
 	}
